@@ -51,6 +51,8 @@ def rewrite(src, relpath, log):
     s = sub('R2', r'\bu8::from_be\(', 'vshim_u8_from_be(', s)
     s = sub('R3', r'\.try_into\(\)(\s*)\.unwrap\(\)', r'.vshim_try_into_unwrap()\1', s)
     s = sub('R3', r'\.try_into\(\)\.expect\("unreachable"\)', '.vshim_try_into_unwrap()', s)
+    # R10  slice.into() (only use in the crate: &[u8] -> Vec<u8>) -> shim with spec r@ == self@ (the shim is only implemented for [u8])
+    s = sub('R10', r'\b([a-z_]+)\.into\(\)', r'\1.vshim_into_vec()', s)
     # R4  X.iter().fold(I, |a, x| { BODY })   ->  while loop with the same BODY (lines preserved)
     s = rewrite_fold(s, relpath, log)
     # R5  anonymous parameters
